@@ -41,24 +41,27 @@ const yieldPoint = "flushLog.beforeInnerSelect"
 
 // Scenario is one replayable case.
 type Scenario struct {
-	Kind       string `json:"kind"` // forced | random | timeout | rollfile | dayfile | hourfile (real writers, realwriter.go)
-	Seed       int64  `json:"seed"`
-	Cap        int    `json:"cap"`        // capacity of the log queue
-	Goroutines int    `json:"goroutines"` // logging goroutines
-	PerG       int    `json:"per_g"`      // entries per goroutine (random) / held entries in total (forced)
-	Writers    int    `json:"writers"`
-	Prefill    int    `json:"prefill"`              // forced: entries logged and written before the flusher is held
-	FlushAfter int    `json:"flush_after"`          // random: FlushLogger is called once this many log calls have returned
-	Linger     int    `json:"linger"`               // random: Gosched rounds the flusher spends at the yield point
-	SlowWrite  int    `json:"slow_write"`           // Gosched rounds inside every Write
-	MaxLen     int    `json:"max_len"`              // longest payload
-	WaitFlush  int    `json:"wait_flush_ms"`        // forced: every Write of a held entry waits up to this long for FlushLogger to return
-	Model      bool   `json:"model"`                // replay the history through the Lean model
-	Repeat     int    `json:"repeat"`               // replay: how often the scenario is executed (schedules differ)
-	Num        int    `json:"num,omitempty"`        // real writers: files kept
-	SizeMB     int    `json:"size_mb,omitempty"`    // rollfile: size limit as given to SetFileRoller
-	LineLen    int    `json:"line_len,omitempty"`   // real writers: longest payload of a line
-	ForceHour  bool   `json:"force_hour,omitempty"` // hourfile: gtime.CurrDateHour is changed half way
+	Kind         string `json:"kind"` // forced | random | timeout | rollfile | dayfile | hourfile (real writers, realwriter.go)
+	Seed         int64  `json:"seed"`
+	Cap          int    `json:"cap"`        // capacity of the log queue
+	Goroutines   int    `json:"goroutines"` // logging goroutines
+	PerG         int    `json:"per_g"`      // entries per goroutine (random) / held entries in total (forced)
+	Writers      int    `json:"writers"`
+	Prefill      int    `json:"prefill"`                  // forced: entries logged and written before the flusher is held
+	FlushAfter   int    `json:"flush_after"`              // random: FlushLogger is called once this many log calls have returned
+	Linger       int    `json:"linger"`                   // random: Gosched rounds the flusher spends at the yield point
+	SlowWrite    int    `json:"slow_write"`               // Gosched rounds inside every Write
+	MaxLen       int    `json:"max_len"`                  // longest payload
+	WaitFlush    int    `json:"wait_flush_ms"`            // forced: every Write of a held entry waits up to this long for FlushLogger to return
+	Model        bool   `json:"model"`                    // replay the history through the Lean model
+	Repeat       int    `json:"repeat"`                   // replay: how often the scenario is executed (schedules differ)
+	Num          int    `json:"num,omitempty"`            // real writers: files kept
+	SizeMB       int    `json:"size_mb,omitempty"`        // rollfile: size limit as given to SetFileRoller
+	LineLen      int    `json:"line_len,omitempty"`       // real writers: longest payload of a line
+	ForceHour    bool   `json:"force_hour,omitempty"`     // hourfile: gtime.CurrDateHour is changed half way
+	DelayUS      int    `json:"delay_us,omitempty"`       // panicexit: the child's writer needs this long per entry
+	FirstDelayMS int    `json:"first_delay_ms,omitempty"` // panicexit: and this long once, for its first entry
+	PanicKind    string `json:"panic_kind,omitempty"`     // panicexit: nilmap | error | string | index | goroutine
 }
 
 func (sc Scenario) real() bool {
@@ -679,6 +682,11 @@ func selfWatchdog(o *common.Opts, res *common.Result) {
 }
 
 func main() {
+	if raw := os.Getenv(panicChildEnv); raw != "" {
+		panicChild(raw) // child of the panic-exit stream (panicexit.go); does not return
+	}
+	// package tars (imported for CheckPanic) lowers the global level to ERROR in its init
+	rogger.SetLevel(rogger.DEBUG)
 	o := common.ParseOpts()
 	res := common.NewResult("C20", o)
 	res.Streams = []string{"logger"}
@@ -711,13 +719,16 @@ func main() {
 	} else {
 		scs = genScenarios(o, rng)
 		scs = append(scs, genRealScenarios(o, rng)...)
+		scs = append(scs, genPanicScenarios(o, rng)...)
 	}
-	var realScs []Scenario
+	var realScs, panicScs []Scenario
 	{
 		var rest []Scenario
 		for _, sc := range scs {
 			if sc.real() {
 				realScs = append(realScs, sc)
+			} else if sc.Kind == "panicexit" {
+				panicScs = append(panicScs, sc)
 			} else {
 				rest = append(rest, sc)
 			}
@@ -725,6 +736,7 @@ func main() {
 		scs = rest
 	}
 
+	runPanicStream(o, res, m, panicScs, replay)
 	if hung := runRealStream(o, res, realScs, replay); hung {
 		res.Note("aborted after a hang in the real-writer stream; %d scenarios not executed", len(scs))
 		scs = nil
@@ -865,7 +877,7 @@ func main() {
 	res.Note("tree variant seen by the extractor: %s; executed %d scenarios; runs that lost an entry: %d; forced runs completed: %d", treeVariant, len(runs), lostRuns, forcedCompleted)
 	res.Rule = "cases = one FlushLogger per scenario (forced D4 schedule for every capacity 1,2,3,5,8 × every occupancy, and the default capacity; " +
 		"random: 1..32 goroutines × entries × writers × capacity × slow writer × flusher lingering between its selects, flush after a random number of returned calls; " +
-		"timeout: blocked writer; real writers: RollFileWriter with two rotations at 1 MB / a rotation per write / a single file, DateWriter by day and by hour with a forced hour change, files read back); observable = history of log-call/log-return/Write(writer,bytes)/FlushLogger call/return events; " +
+		"timeout: blocked writer; real writers: RollFileWriter with two rotations at 1 MB / a rotation per write / a single file, DateWriter by day and by hour with a forced hour change, files read back; panic exit: child processes log 1..2000 entries through writers of different speeds and panic in five ways under defer tars.CheckPanic()); observable = history of log-call/log-return/Write(writer,bytes)/FlushLogger call/return events; " +
 		"non-trivial = distinct histories with at least one logging call"
 	if err := res.Write(o.Out); err != nil {
 		panic(err)
